@@ -1,5 +1,7 @@
 import BSModel.Proofs.EncodingIn
 import BSModel.Proofs.EncodingDecl
+import BSModel.Proofs.EncodingRx
+import BSModel.Proofs.Detwingle
 import BSModel.Gen.EncodingIn
 /-! # C07 — encoding detection follows the documented precedence and decodes exactly
 
@@ -17,13 +19,13 @@ open BS BS.EncodingIn
     the documented list: known definite, BOM, user, declared, utf-8, windows-1252 — minus excluded,
     first occurrence (ignoring case) only. -/
 theorem encodings_eq_candidates (known : List Name) (bom : Option Name) (user : List Name)
-    (declared : Option Name) (excl : List Name) :
-    encodingsImpl known bom user declared excl = candidates known bom user declared excl := by
+    (declared chardet : Option Name) (excl : List Name) :
+    encodingsImpl known bom user declared chardet excl = candidates known bom user declared chardet excl := by
   rw [encodingsImpl_eq_yieldAll, yieldAll_fst]
   simp [candidates]
 
 example : encodingsImpl [ofS "Latin-1", ofS "utf-8"] (some utf16le) [ofS "LATIN-1", ofS "koi8-r"] (some (ofS "UTF-8"))
-    [ofS "koi8-r"] = [ofS "Latin-1", ofS "utf-8", utf16le, ofS "windows-1252"] := by decide
+    (some (ofS "Big5")) [ofS "koi8-r"] = [ofS "Latin-1", ofS "utf-8", utf16le, ofS "Big5", ofS "windows-1252"] := by decide
 
 /-- The generated last-ditch list is the documented one, in the documented order. -/
 theorem fallback_is_utf8_then_windows1252 :
@@ -31,9 +33,9 @@ theorem fallback_is_utf8_then_windows1252 :
 
 /-- Candidates come from the sources, in source order (a sublist), and none is excluded. -/
 theorem candidates_in_order (known : List Name) (bom : Option Name) (user : List Name)
-    (declared : Option Name) (excl : List Name) :
-    (candidates known bom user declared excl).Sublist (sources known bom user declared) ∧
-    ∀ c ∈ candidates known bom user declared excl, excl.contains (lower c) = false := by
+    (declared chardet : Option Name) (excl : List Name) :
+    (candidates known bom user declared chardet excl).Sublist (sources known bom user declared chardet) ∧
+    ∀ c ∈ candidates known bom user declared chardet excl, excl.contains (lower c) = false := by
   constructor
   · exact (dedupLower_sublist _).trans List.filter_sublist
   · intro c hc
@@ -42,18 +44,18 @@ theorem candidates_in_order (known : List Name) (bom : Option Name) (user : List
 
 /-- Each encoding is tried once: no two candidates are equal ignoring case. -/
 theorem each_candidate_once (known : List Name) (bom : Option Name) (user : List Name)
-    (declared : Option Name) (excl : List Name) :
-    (candidates known bom user declared excl).Pairwise (fun a b => lower a ≠ lower b) :=
+    (declared chardet : Option Name) (excl : List Name) :
+    (candidates known bom user declared chardet excl).Pairwise (fun a b => lower a ≠ lower b) :=
   dedupLower_pairwise _
 
 /-- Nothing is lost: every source that is not excluded is represented (ignoring case) by a
     candidate, and the representative is the FIRST such source. -/
 theorem candidates_complete (known : List Name) (bom : Option Name) (user : List Name)
-    (declared : Option Name) (excl : List Name) :
-    (∀ x ∈ sources known bom user declared, excl.contains (lower x) = false →
-      ∃ c ∈ candidates known bom user declared excl, lower c = lower x) ∧
-    (∀ pre x post, sources known bom user declared = pre ++ x :: post → excl.contains (lower x) = false →
-      (∀ y ∈ pre, lower y ≠ lower x) → x ∈ candidates known bom user declared excl) := by
+    (declared chardet : Option Name) (excl : List Name) :
+    (∀ x ∈ sources known bom user declared chardet, excl.contains (lower x) = false →
+      ∃ c ∈ candidates known bom user declared chardet excl, lower c = lower x) ∧
+    (∀ pre x post, sources known bom user declared chardet = pre ++ x :: post → excl.contains (lower x) = false →
+      (∀ y ∈ pre, lower y ≠ lower x) → x ∈ candidates known bom user declared chardet excl) := by
   constructor
   · intro x hx he
     exact dedupLower_complete _ x (List.mem_filter.mpr ⟨hx, by rw [he]; rfl⟩)
@@ -63,7 +65,7 @@ theorem candidates_complete (known : List Name) (bom : Option Name) (user : List
     simp only [he, Bool.not_false, if_true]
     exact dedupLower_first _ _ x (fun y hy => hpre y (List.mem_filter.mp hy).1)
 
-example : candidates [ofS "A", ofS "a"] none [] none [] = [ofS "A", utf8, ofS "windows-1252"] := by
+example : candidates [ofS "A", ofS "a"] none [] none none [] = [ofS "A", utf8, ofS "windows-1252"] := by
   rw [← encodings_eq_candidates]; decide
 
 /-! ## the result of UnicodeDammit -/
@@ -75,11 +77,11 @@ theorem dammit_eq_spec (C : Codecs) (a : Args) (b : Bytes) (hb : b ≠ []) :
     ((dammit C a (.bytes b)).text, (dammit C a (.bytes b)).originalEncoding,
       (dammit C a (.bytes b)).containsReplacement) =
     dammitSpec C (stripBom b).1
-      (candidates (a.known ++ a.override) (stripBom b).2 a.user (findDeclared (stripBom b).1 a.isHtml) (exclSet a)) := by
+      (candidatesOf C a b) := by
   have hne : b.isEmpty = false := by cases b <;> simp_all
   have h := (dammitBytes_spec C a (stripBom b).1 (stripBom b).2 (findDeclared (stripBom b).1 a.isHtml)).1
   simp only [detectorEncodings, encodings_eq_candidates] at h
-  simpa [dammit, hne] using h
+  simpa [dammit, hne, candidatesOf] using h
 
 /-- what "decodes under candidate c" means: `find_codec` resolves the name, and the strict (or
     replace) decoder returns a string -/
@@ -107,7 +109,7 @@ theorem attempt_iff (C : Codecs) (data : Bytes) (rep : Bool) (c r : Name) (u : P
     the codec name the candidate resolves to; no replacement is flagged. -/
 theorem dammit_first_clean (C : Codecs) (a : Args) (b : Bytes) (hb : b ≠ [])
     (pre post : List Name) (c r : Name) (u : PStr)
-    (hc : candidates (a.known ++ a.override) (stripBom b).2 a.user (findDeclared (stripBom b).1 a.isHtml) (exclSet a)
+    (hc : candidatesOf C a b
       = pre ++ c :: post)
     (hpre : ∀ x ∈ pre, ∀ r', findCodec C x = some r' → C.decodeStrict r' (stripBom b).1 = none)
     (hr : findCodec C c = some r) (hu : C.decodeStrict r (stripBom b).1 = some u) :
@@ -140,12 +142,12 @@ theorem dammit_first_clean (C : Codecs) (a : Args) (b : Bytes) (hb : b ≠ [])
     candidate other than "ascii" decodes with replacement characters. -/
 theorem replacement_iff (C : Codecs) (a : Args) (b : Bytes) (hb : b ≠ []) :
     (dammit C a (.bytes b)).containsReplacement = true ↔
-      (∀ c ∈ candidates (a.known ++ a.override) (stripBom b).2 a.user (findDeclared (stripBom b).1 a.isHtml) (exclSet a),
+      (∀ c ∈ candidatesOf C a b,
           attempt C (stripBom b).1 false c = none) ∧
-      (∃ c ∈ candidates (a.known ++ a.override) (stripBom b).2 a.user (findDeclared (stripBom b).1 a.isHtml) (exclSet a),
+      (∃ c ∈ candidatesOf C a b,
           c ≠ ascii ∧ (attempt C (stripBom b).1 true c).isSome) := by
   have h := dammit_eq_spec C a b hb
-  generalize candidates (a.known ++ a.override) (stripBom b).2 a.user (findDeclared (stripBom b).1 a.isHtml) (exclSet a) = cands at h
+  generalize candidatesOf C a b = cands at h
   unfold dammitSpec at h
   cases hf : cands.findSome? (attempt C (stripBom b).1 false) with
   | some ru =>
@@ -183,10 +185,10 @@ theorem replacement_iff (C : Codecs) (a : Args) (b : Bytes) (hb : b ≠ []) :
     original_encoding — the case `prepare_markup` turns into ParserRejectedMarkup. -/
 theorem no_text_iff (C : Codecs) (a : Args) (b : Bytes) (hb : b ≠ []) :
     (dammit C a (.bytes b)).text = none ↔
-      (∀ c ∈ candidates (a.known ++ a.override) (stripBom b).2 a.user (findDeclared (stripBom b).1 a.isHtml) (exclSet a),
+      (∀ c ∈ candidatesOf C a b,
           attempt C (stripBom b).1 false c = none ∧ (c ≠ ascii → attempt C (stripBom b).1 true c = none)) := by
   have h := dammit_eq_spec C a b hb
-  generalize candidates (a.known ++ a.override) (stripBom b).2 a.user (findDeclared (stripBom b).1 a.isHtml) (exclSet a) = cands at h
+  generalize candidatesOf C a b = cands at h
   unfold dammitSpec at h
   cases hf : cands.findSome? (attempt C (stripBom b).1 false) with
   | some ru =>
@@ -237,7 +239,7 @@ theorem str_passthrough (C : Codecs) (a : Args) (s : PStr) :
     (dammit C a (.str s)).text = some s ∧ (dammit C a (.str s)).originalEncoding = none ∧
     (dammit C a (.str s)).containsReplacement = false ∧ (dammit C a (.str s)).declaredHtml = none ∧
     ∀ fromEnc excl, prepareMarkup C (.str s) fromEnc excl = .ok s none none false := by
-  simp [dammit, prepareMarkup]
+  simp [dammit, prepareMarkup, prepareMarkupFull]
 
 /-- The empty byte string gives the empty text (repaired: the unrepaired code gives `"b''"`). -/
 theorem empty_bytes (C : Codecs) (a : Args) :
@@ -307,9 +309,9 @@ theorem bom_probes_agree : Gen.bomProbes.all (fun t => stripBom t.1 == (t.2.1, t
   decide +kernel
 
 /-- With no known-definite encoding, the BOM's encoding is the first candidate (unless excluded). -/
-theorem bom_first_candidate (n : Name) (user : List Name) (declared : Option Name) (excl : List Name)
+theorem bom_first_candidate (n : Name) (user : List Name) (declared chardet : Option Name) (excl : List Name)
     (h : excl.contains (lower n) = false) :
-    ∃ rest, candidates [] (some n) user declared excl = n :: rest := by
+    ∃ rest, candidates [] (some n) user declared chardet excl = n :: rest := by
   unfold candidates sources
   simp only [List.nil_append, Option.toList_some, List.cons_append, List.filter_cons, h, Bool.not_false, if_true,
     dedupLower_cons]
@@ -322,10 +324,10 @@ example : stripBom [0xff, 0xfe, 0x00, 0x00, 0x61, 0, 0, 0] = ([0x61, 0, 0, 0], s
 /-! ## UTF-8 by default, and what the constructor adds -/
 
 /-- Bytes that are valid UTF-8, with no contrary indication (no known/override/user encodings, no BOM,
-    no declaration, utf-8 not excluded), are decoded as UTF-8. -/
+    no declaration, no guess from a chardet-like library, utf-8 not excluded), are decoded as UTF-8. -/
 theorem utf8_default (C : Codecs) (a : Args) (b : Bytes) (u : PStr) (hb : b ≠ [])
     (hk : a.known = []) (ho : a.override = []) (hu : a.user = [])
-    (hbom : stripBom b = (b, none)) (hdecl : findDeclared b a.isHtml = none)
+    (hbom : stripBom b = (b, none)) (hdecl : findDeclared b a.isHtml = none) (hch : C.chardet b = none)
     (hx : (exclSet a).contains utf8 = false)
     (hex : C.codecExists utf8 = true) (hdec : C.decodeStrict utf8 b = some u) :
     (dammit C a (.bytes b)).text = some u ∧ (dammit C a (.bytes b)).originalEncoding = some utf8 ∧
@@ -336,10 +338,11 @@ theorem utf8_default (C : Codecs) (a : Args) (b : Bytes) (u : PStr) (hb : b ≠ 
     have h3 : utf8.isEmpty = false := by decide
     simp only [findCodec, codec, h1, h3, hex, h2, Bool.false_eq_true, if_false, if_true]
   have hl : lower utf8 = utf8 := by decide
-  have hcands : ∃ rest, candidates (a.known ++ a.override) (stripBom b).2 a.user (findDeclared (stripBom b).1 a.isHtml) (exclSet a)
+  have hcands : ∃ rest, candidatesOf C a b
       = [] ++ utf8 :: rest := by
+    unfold candidatesOf
     rw [hbom]
-    simp only [hk, ho, hu, hdecl, candidates, sources, fallback_is_utf8_then_windows1252, List.append_nil, Option.toList_none,
+    simp only [hk, ho, hu, hdecl, hch, candidates, sources, fallback_is_utf8_then_windows1252, List.append_nil, Option.toList_none,
       List.nil_append, List.filter_cons, hl, hx, Bool.not_false, if_true, dedupLower_cons]
     exact ⟨_, rfl⟩
   obtain ⟨rest, hc⟩ := hcands
@@ -354,15 +357,15 @@ theorem from_encoding_first (C : Codecs) (b : Bytes) (e r : Name) (u : PStr) (ex
     ∃ d, prepareMarkup C (.bytes b) (some e) excl = .ok u (some r) d false := by
   have hne : e.isEmpty = false := by cases e <;> simp_all
   let a : Args := { known := [e], user := [], exclude := excl, isHtml := true }
-  have hc : ∃ rest, candidates (a.known ++ a.override) (stripBom b).2 a.user (findDeclared (stripBom b).1 a.isHtml) (exclSet a)
+  have hc : ∃ rest, candidatesOf C a b
       = [] ++ e :: rest := by
-    simp only [a, candidates, sources, exclSet, List.append_nil, List.cons_append, List.nil_append, List.filter_cons, hx,
+    simp only [a, candidatesOf, candidates, sources, exclSet, List.append_nil, List.cons_append, List.nil_append, List.filter_cons, hx,
       Bool.not_false, if_true, dedupLower_cons]
     exact ⟨_, rfl⟩
   obtain ⟨rest, hc⟩ := hc
   obtain ⟨h1, h2, h3⟩ := dammit_first_clean C a b hb [] rest e r u hc (fun x hx => by cases hx) hr hu
   refine ⟨(dammit C a (.bytes b)).declaredHtml, ?_⟩
-  simp only [prepareMarkup, knownOfFromEncoding, hne, Bool.false_eq_true, if_false]
+  simp only [prepareMarkup, prepareMarkupFull, knownOfFromEncoding, hne, Bool.false_eq_true, if_false]
   show (match (dammit C a (.bytes b)).text with
     | none => Prepared.rejected
     | some t => Prepared.ok t (dammit C a (.bytes b)).originalEncoding (dammit C a (.bytes b)).declaredHtml
@@ -373,8 +376,8 @@ theorem from_encoding_first (C : Codecs) (b : Bytes) (e r : Name) (u : PStr) (ex
 theorem prepare_rejected_iff (C : Codecs) (b : Bytes) (fromEnc : Option Name) (excl : List Name) :
     prepareMarkup C (.bytes b) fromEnc excl = .rejected ↔
       (dammit C { known := knownOfFromEncoding fromEnc, user := [], exclude := excl, isHtml := true } (.bytes b)).text = none := by
-  unfold prepareMarkup
-  dsimp only
+  unfold prepareMarkup prepareMarkupFull
+  dsimp only [knownOfFromEncoding]
   split
   · rename_i h; exact ⟨fun _ => h, fun _ => rfl⟩
   · rename_i t h
@@ -383,8 +386,17 @@ theorem prepare_rejected_iff (C : Codecs) (b : Bytes) (fromEnc : Option Name) (e
     · intro h'; rw [h] at h'; cases h'
 
 /-- Rejection really happens: exclude the two last-ditch encodings and give nothing else. -/
-example : prepareMarkup ⟨fun _ => true, fun _ _ => some [], fun _ _ => some []⟩ (.bytes [65]) none
+example : prepareMarkup ⟨fun _ => true, fun _ _ => some [], fun _ _ => some [], fun _ => none⟩ (.bytes [65]) none
     [ofS "UTF-8", ofS "windows-1252"] = .rejected := by decide
+
+/-- The deprecated `fromEncoding=` keyword means exactly what `from_encoding=` means, also when an empty
+    `from_encoding` is given next to it. (Giving BOTH with a non-empty `from_encoding` is outside the
+    model: the `or` short-circuits, the deprecated keyword stays among the builder's keyword arguments
+    and the TreeBuilder constructor raises TypeError.) -/
+theorem deprecated_fromEncoding_alias (C : Codecs) (m : Markup) (e : Name) (excl : List Name) :
+    constructorPrepare C m none (some e) excl = constructorPrepare C m (some e) none excl ∧
+    constructorPrepare C m (some []) (some e) excl = constructorPrepare C m (some e) none excl := by
+  cases he : e.isEmpty <;> simp [constructorPrepare, effectiveFromEncoding, he, prepareMarkup, prepareMarkupFull, knownOfFromEncoding]
 
 /-! ## the declared encoding -/
 
@@ -408,64 +420,196 @@ theorem declared_reported (C : Codecs) (a : Args) (b : Bytes) :
   · rw [hb]
     cases h : a.isHtml <;> rfl
 
-/-! ### the declaration matcher on the shapes the property names (PARTIAL)
+/-! ### the declaration regexes
 
-Full statement wanted: `findDeclared` = group 1 of Python's `re` search of the two patterns
-(`xml_encoding`, `html_meta`, bytes versions, `re.I`, the two `endpos` windows) for EVERY byte
-string. That needs a semantics of the regex engine; `findDeclared` is a hand-written matcher following
-the engine's backtracking order and is tied to the real regexes by correspondence only (token soups,
-mutated declarations, window boundaries). Proved here: what it returns on well-formed declarations. -/
+`Rx.findDeclaredRx` is the code-mirror of `find_declared_encoding`: Python's `re` search (module
+`Model/EncodingRx.lean`: backtracking matcher for the fragment of the regex language the two patterns
+use) over the patterns GENERATED from the live `xml_encoding` / `html_meta` sources, with the two
+`endpos` windows. `findDeclared` (used by `dammit`) is the hand-written matcher. They are equal on
+every input (`declared_regex_refinement`), so every statement below holds of the regex mirror.
+What remains outside Lean: that `Rx.search` is what CPython's `re` computes on this fragment — tied
+by the `rx` correspondence stream (random patterns of the fragment, bytes and str, versus `re`). -/
 
-/-- `<?xml … encoding="NAME"?>` at the start (after optional white space), within the first 1024
-    bytes, the line ending right after it or continuing without `=`: the declared encoding is NAME,
-    lower-cased — for XML and for HTML documents alike. -/
-theorem declared_of_wellformed_xml_partial (ws pre name restLine tail : Bytes) (q1 q2 : Nat) (isHtml : Bool)
+/-- REFINEMENT. `find_declared_encoding` as a regex search over the generated patterns (bytes
+    flavour) is the hand-written matcher used by the model of UnicodeDammit — for EVERY byte string. -/
+theorem declared_regex_refinement (markup : Bytes) (isHtml : Bool) :
+    Rx.findDeclaredRx false markup isHtml false = findDeclared markup isHtml :=
+  Rx.findDeclaredRx_eq markup isHtml
+
+/-- The generated pattern data (from `re._parser` on the live sources) is what the proofs are about:
+    `^\s*<\?.*encoding=['"](.*?)['"].*\?>` and `<\s*meta[^>]+charset\s*=\s*["']?([^>]*?)[ /;'">]`. -/
+theorem patterns_are_the_live_ones :
+    (Gen.c07XmlAnchored = true ∧ Gen.c07XmlAtoms = Rx.xmlAtomsH) ∧
+    (Gen.c07HtmlAnchored = false ∧ Gen.c07HtmlAtoms = Rx.htmlAtomsH) :=
+  ⟨Rx.gen_xml_eq, Rx.gen_html_eq⟩
+
+/-- How the two flavours differ on ASCII (whole generated tables, kernel-decided): the str `\s` is the
+    bytes `\s` plus the four separators U+001C..U+001F; the case folding of the patterns' literals is
+    the same (the str flavour's extra matches — `ſ` for `s`, `ı`/`İ` for `i` — are all non-ASCII). -/
+theorem str_flavor_vs_bytes_flavor_on_ascii :
+    (List.range 128).all (fun x => Rx.strFlavor.space x == (Rx.bytesFlavor.space x || (28 ≤ x && x ≤ 31))) = true ∧
+    (Gen.c07CiTable.all fun e => (List.range 128).all fun x =>
+      Rx.strFlavor.ci e.1 x == Rx.bytesFlavor.ci e.1 x) = true := by
+  constructor <;> decide +kernel
+
+/-- The result does not depend on anything after the search window: two documents of the same length
+    that agree on the first `max(2048, len/20)` characters declare the same encoding — both flavours. -/
+theorem declared_window_independent (isStr : Bool) (m1 m2 : List Nat) (isHtml : Bool)
+    (hlen : m1.length = m2.length)
+    (hw : m1.take (max 2048 (m1.length / 20)) = m2.take (max 2048 (m1.length / 20))) :
+    Rx.findDeclaredRx isStr m1 isHtml false = Rx.findDeclaredRx isStr m2 isHtml false := by
+  have h1024 : m1.take 1024 = m2.take 1024 := by
+    have h1 : m1.take 1024 = (m1.take (max 2048 (m1.length / 20))).take 1024 := by
+      rw [List.take_take]; congr 1; omega
+    have h2 : m2.take 1024 = (m2.take (max 2048 (m1.length / 20))).take 1024 := by
+      rw [List.take_take]; congr 1; omega
+    rw [h1, h2, hw]
+  unfold Rx.findDeclaredRx Rx.search
+  simp only [Bool.false_eq_true, if_false, h1024, ← hlen, hw]
+
+/-- … in particular for the matcher inside `dammit`. -/
+theorem declared_window_independent_bytes (m1 m2 : Bytes) (isHtml : Bool) (hlen : m1.length = m2.length)
+    (hw : m1.take (max 2048 (m1.length / 20)) = m2.take (max 2048 (m1.length / 20))) :
+    findDeclared m1 isHtml = findDeclared m2 isHtml := by
+  rw [← declared_regex_refinement, ← declared_regex_refinement]
+  exact declared_window_independent false m1 m2 isHtml hlen hw
+
+example : findDeclared (ofS "<meta charset=x>" ++ List.replicate 3000 120 ++ ofS "<meta charset=a>") true
+    = findDeclared (ofS "<meta charset=x>" ++ List.replicate 3000 120 ++ ofS "<meta charset=b>") true := by
+  apply declared_window_independent_bytes
+  · decide +kernel
+  · decide +kernel
+
+/-- Nothing is found when the markers are absent: no `<?` at the start (after white space) of the
+    first 1024 bytes — or no `encoding=` there — and no `<`+`meta` — or no `charset` — in the HTML window. -/
+theorem nothing_declared_without_markers (markup : Bytes) (isHtml : Bool)
+    (hxml : (∀ rest, (markup.take 1024).dropWhile isSpace ≠ 60 :: 63 :: rest) ∨
+            containsCI litEncodingEq (markup.take 1024) = false)
+    (hhtml : hasMetaOpen (markup.take (max 2048 (markup.length / 20))) = false ∨
+             containsCI litCharset (markup.take (max 2048 (markup.length / 20))) = false) :
+    findDeclared markup isHtml = none ∧ Rx.findDeclaredRx false markup isHtml false = none := by
+  have hx : xmlMatch markup = none := by
+    unfold xmlMatch
+    rcases hxml with h | h
+    · split
+      · rename_i rest heq; exact absurd heq (h rest)
+      · rfl
+    · split
+      · rename_i rest heq
+        apply lastEncoding_none_of_no_encoding
+        have h1 := containsCI_dropWhile litEncodingEq _ isSpace h
+        rw [heq] at h1
+        have h2 : containsCI litEncodingEq rest = false := by
+          simp only [containsCI, Bool.or_eq_false_iff] at h1; exact h1.2.2
+        -- the line is a prefix of `rest`
+        clear heq h1 h
+        induction rest with
+        | nil => simpa using h2
+        | cons c t ih =>
+          simp only [containsCI, Bool.or_eq_false_iff] at h2
+          simp only [List.takeWhile_cons]
+          split
+          · simp only [containsCI, Bool.or_eq_false_iff]
+            refine ⟨?_, ih h2.2⟩
+            have := Rx.startsCI_line litEncodingEq (by decide) (c :: t)
+            unfold Rx.line at this
+            simp only [List.takeWhile_cons] at this
+            rename_i hc
+            simp only [hc, if_true] at this
+            rw [this]; exact h2.1
+          · rfl
+      · rfl
+  have hh : htmlSearch (markup.take (max 2048 (markup.length / 20))) = none := by
+    rcases hhtml with h | h
+    · exact htmlSearch_none_of_no_meta _ h
+    · exact htmlSearch_none_of_no_charset _ h
+  have : findDeclared markup isHtml = none := by
+    unfold findDeclared
+    simp only [hx, hh]
+    cases isHtml <;> rfl
+  exact ⟨this, by rw [declared_regex_refinement]; exact this⟩
+
+example : findDeclared (ofS "<html><head><title>charset and meta, but no tag</title></head>") true = none :=
+  (nothing_declared_without_markers _ true (Or.inr (by decide)) (Or.inl (by decide))).1
+
+/-- Both flavours, both `search_entire_document` settings: a text without any `<` declares nothing
+    (in the str flavour too only `<` itself matches the literal `<` — decided over the generated
+    case-folding table). -/
+theorem nothing_declared_without_lt (isStr : Bool) (markup : List Nat) (isHtml entire : Bool)
+    (h : ∀ x ∈ markup, x ≠ 60) : Rx.findDeclaredRx isStr markup isHtml entire = none :=
+  Rx.findDeclaredRx_none_of_no_lt isStr markup isHtml entire h
+
+example : Rx.findDeclaredRx true (ofS "charset=utf-8 encoding='x' ?> meta") true true = none :=
+  nothing_declared_without_lt _ _ _ _ (by decide)
+
+/-! #### well-formed declarations inside the window are found -/
+
+/-- `<?xml … encoding="NAME" …?>` at the start (after optional white space) and within the first
+    1024 bytes: NAME is quote-free, the rest of the line (`after`: e.g. `?>`, ` standalone="yes"?>`,
+    `?><html lang="en">`) contains `?>` and no further `encoding=`, and the line ends with the input or
+    a newline. The declared encoding is NAME lower-cased — for XML and HTML documents alike, by the
+    hand-written matcher AND by the regex mirror. -/
+theorem declared_of_wellformed_xml (ws pre name after tail : Bytes) (q1 q2 : Nat) (isHtml : Bool)
     (hws : ∀ c ∈ ws, isSpace c = true) (hpre : ∀ c ∈ pre, c ≠ 10)
     (hq1 : isQuote q1 = true) (hq2 : isQuote q2 = true) (hne : name ≠ [])
-    (hn : ∀ c ∈ name, isQuote c = false ∧ c ≠ 61 ∧ c ≠ 10)
-    (hr : ∀ c ∈ restLine, c ≠ 61 ∧ c ≠ 10)
+    (hn : ∀ c ∈ name, isQuote c = false ∧ c ≠ 10)
+    (ha : ∀ c ∈ after, c ≠ 10) (hqm : containsQmGt after = true)
+    (hno : containsCI litEncodingEq (name ++ q2 :: after) = false)
     (ht : tail = [] ∨ ∃ r, tail = 10 :: r)
-    (hlen : (ws ++ 60 :: 63 :: (pre ++ (litEncodingEq ++ q1 :: (name ++ q2 :: 63 :: 62 :: restLine)))).length ≤ 1024) :
-    findDeclared (ws ++ 60 :: 63 :: (pre ++ (litEncodingEq ++ q1 :: (name ++ q2 :: 63 :: 62 :: restLine))) ++ tail) isHtml
+    (hlen : (ws ++ 60 :: 63 :: (pre ++ (litEncodingEq ++ q1 :: (name ++ q2 :: after)))).length ≤ 1024) :
+    findDeclared (ws ++ 60 :: 63 :: (pre ++ (litEncodingEq ++ q1 :: (name ++ q2 :: after))) ++ tail) isHtml
+      = some (lower (asciiReplace name)) ∧
+    Rx.findDeclaredRx false (ws ++ 60 :: 63 :: (pre ++ (litEncodingEq ++ q1 :: (name ++ q2 :: after))) ++ tail) isHtml false
       = some (lower (asciiReplace name)) := by
   have hne' : name.isEmpty = false := by cases name <;> simp_all
-  unfold findDeclared
-  rw [xmlMatch_decl ws pre name restLine tail q1 q2 hws hpre hq1 hq2 hn hr ht hlen]
-  simp [hne']
+  have h : findDeclared (ws ++ 60 :: 63 :: (pre ++ (litEncodingEq ++ q1 :: (name ++ q2 :: after))) ++ tail) isHtml
+      = some (lower (asciiReplace name)) := by
+    unfold findDeclared
+    rw [xmlMatch_decl_gen ws pre name after tail q1 q2 hws hpre hq1 hq2 hn ha hqm hno ht hlen]
+    simp [hne']
+  exact ⟨h, by rw [declared_regex_refinement]; exact h⟩
 
 example : findDeclared (ofS "<?xml version=\"1.0\" encoding=\"KOI8-R\"?>\n<a/>") false = some (ofS "koi8-r") := by decide
 
-/-- `<meta … charset=NAME…>` (covers `<meta charset="NAME">`, unquoted, `/>`-closed, and
-    `<meta http-equiv=… content="text/html; charset=NAME">`): no XML declaration in front, every
-    earlier `<` opens something that is visibly not `<meta`, the tag lies within the first 2048 bytes,
-    NAME has no closing-class character / white space / `=`, and nothing with `=` follows before `>`. -/
-theorem declared_of_wellformed_meta_partial (pre mid qs name close rest : Bytes) (m0 : Nat)
+/-- `<meta … charset=NAME…>`: covers `<meta charset="NAME">`, unquoted, `/>`-closed,
+    `<meta http-equiv=… content="text/html; charset=NAME">`, and further attributes after the value
+    (`<meta charset="NAME" id="x">`). Hypotheses: no XML declaration in front; every earlier `<` opens
+    something that is visibly not `<meta`; the tag (through its `>`) lies within the first 2048 bytes;
+    NAME has no closing-class character and no white space; what follows the value up to `>` starts
+    with a closing-class character and does not contain `charset` again. -/
+theorem declared_of_wellformed_meta (pre mid qs name close rest : Bytes) (m0 : Nat)
     (hxml : xmlMatch (pre ++ 60 :: (litMeta ++ m0 :: (mid ++ (litCharset ++ 61 :: (qs ++ (name ++ (close ++ [62])))))) ++ rest) = none)
     (hpre : tagsNotMeta pre = true)
     (hm0 : m0 ≠ 62) (hmid : ∀ c ∈ mid, c ≠ 62)
     (hqs : qs = [] ∨ ∃ q, qs = [q] ∧ isQuote q = true) (hne : name ≠ [])
-    (hn : ∀ c ∈ name, isTerm c = false ∧ isSpace c = false ∧ c ≠ 61)
-    (hclose : ∀ c ∈ close, c ≠ 61 ∧ c ≠ 62)
+    (hn : ∀ c ∈ name, isTerm c = false ∧ isSpace c = false)
+    (hclose : ∀ c ∈ close, c ≠ 62)
+    (hno : containsCI litCharset (qs ++ name ++ close) = false)
     (hterm : close = [] ∨ ∃ t r, close = t :: r ∧ isTerm t = true)
     (hlen : (pre ++ 60 :: (litMeta ++ m0 :: (mid ++ (litCharset ++ 61 :: (qs ++ (name ++ (close ++ [62]))))))).length ≤ 2048) :
     findDeclared (pre ++ 60 :: (litMeta ++ m0 :: (mid ++ (litCharset ++ 61 :: (qs ++ (name ++ (close ++ [62])))))) ++ rest) true
+      = some (lower (asciiReplace name)) ∧
+    Rx.findDeclaredRx false (pre ++ 60 :: (litMeta ++ m0 :: (mid ++ (litCharset ++ 61 :: (qs ++ (name ++ (close ++ [62])))))) ++ rest) true false
       = some (lower (asciiReplace name)) := by
   have hne' : name.isEmpty = false := by cases name <;> simp_all
-  unfold findDeclared
-  rw [hxml]
-  simp only [if_true]
-  have hle : (pre ++ 60 :: (litMeta ++ m0 :: (mid ++ (litCharset ++ 61 :: (qs ++ (name ++ (close ++ [62]))))))).length
-      ≤ max 2048 ((pre ++ 60 :: (litMeta ++ m0 :: (mid ++ (litCharset ++ 61 :: (qs ++ (name ++ (close ++ [62])))))) ++ rest).length / 20) :=
-    Nat.le_trans hlen (Nat.le_max_left _ _)
-  rw [take_append_le _ _ _ hle]
-  generalize rest.take _ = rest'
-  have hre : pre ++ 60 :: (litMeta ++ m0 :: (mid ++ (litCharset ++ 61 :: (qs ++ (name ++ (close ++ [62])))))) ++ rest'
-      = pre ++ 60 :: (litMeta ++ m0 :: (mid ++ (litCharset ++ 61 :: (qs ++ (name ++ (close ++ 62 :: rest')))))) := by
-    simp [List.append_assoc]
-  rw [hre, htmlSearch_skip pre _ hpre, htmlSearch]
-  simp only [beq_self_eq_true, if_true]
-  rw [metaAt_decl m0 mid qs name close rest' hm0 hmid hqs hne hn hclose hterm]
-  simp [hne']
+  have h : findDeclared (pre ++ 60 :: (litMeta ++ m0 :: (mid ++ (litCharset ++ 61 :: (qs ++ (name ++ (close ++ [62])))))) ++ rest) true
+      = some (lower (asciiReplace name)) := by
+    unfold findDeclared
+    rw [hxml]
+    simp only [if_true]
+    have hle : (pre ++ 60 :: (litMeta ++ m0 :: (mid ++ (litCharset ++ 61 :: (qs ++ (name ++ (close ++ [62]))))))).length
+        ≤ max 2048 ((pre ++ 60 :: (litMeta ++ m0 :: (mid ++ (litCharset ++ 61 :: (qs ++ (name ++ (close ++ [62])))))) ++ rest).length / 20) :=
+      Nat.le_trans hlen (Nat.le_max_left _ _)
+    rw [take_append_le _ _ _ hle]
+    generalize rest.take _ = rest'
+    have hre : pre ++ 60 :: (litMeta ++ m0 :: (mid ++ (litCharset ++ 61 :: (qs ++ (name ++ (close ++ [62])))))) ++ rest'
+        = pre ++ 60 :: (litMeta ++ m0 :: (mid ++ (litCharset ++ 61 :: (qs ++ (name ++ (close ++ 62 :: rest')))))) := by
+      simp [List.append_assoc]
+    rw [hre, htmlSearch_skip pre _ hpre, htmlSearch]
+    simp only [beq_self_eq_true, if_true]
+    rw [metaAt_decl_gen m0 mid qs name close rest' hm0 hmid hqs hne hn hclose hno hterm]
+    simp [hne']
+  exact ⟨h, by rw [declared_regex_refinement]; exact h⟩
 
 example : findDeclared (ofS "<html><head><meta http-equiv=\"Content-Type\" content=\"text/html; charset=Shift_JIS\"></head>") true
     = some (ofS "shift_jis") := by decide
@@ -475,19 +619,322 @@ example : findDeclared (ofS "<html><head><meta charset='x-sjis' /></head>") fals
 
 /-- so declared_html_encoding reports a well-formed `<meta>` declaration whatever the arguments,
     whatever encoding wins and whatever the codecs do (false of the unrepaired code) -/
-theorem declared_html_encoding_of_meta_partial (C : Codecs) (a : Args) (doc name : Bytes) (ha : a.isHtml = true)
+theorem declared_html_encoding_of_meta (C : Codecs) (a : Args) (doc name : Bytes) (ha : a.isHtml = true)
     (hbom : stripBom doc = (doc, none)) (hd : findDeclared doc true = some (lower (asciiReplace name))) :
     (dammit C a (.bytes doc)).declaredHtml = some (lower (asciiReplace name)) := by
   rw [declared_reported, ha, hbom]
   simpa using hd
-
-/-! ## non-vacuity: a toy codec oracle and instances of the hypotheses above -/
 
 /-- utf-8 and ascii exist and decode (strictly) exactly the 7-bit strings -/
 def toy : Codecs where
   codecExists n := n == utf8 || n == ascii
   decodeStrict n b := if (n == utf8 || n == ascii) && b.all (· < 128) then some b else none
   decodeReplace n b := if n == utf8 || n == ascii then some (b.map fun c => if c < 128 then c else 0xFFFD) else none
+
+/-! ## find_codec -/
+
+/-- Over the whole generated alias table: no key and no target is empty, and every entry is lower-case. -/
+theorem alias_table_well_formed :
+    Gen.charsetAliases.all (fun kv => !kv.1.isEmpty && !kv.2.isEmpty && lower kv.1 == kv.1 && lower kv.2 == kv.2) = true := by
+  decide +kernel
+
+/-- `find_codec` spelled out: the first of (alias, dashes removed, dashes as underscores) that is a
+    non-empty name `codecs.lookup` knows — else the name itself; always lower-cased. -/
+theorem findCodec_spec (C : Codecs) (c : Name) (hc : c ≠ []) :
+    findCodec C c = some (lower (([aliasOf c, replaceDash [] c, replaceDash [95] c].find?
+      (fun v => !v.isEmpty && C.codecExists v)).getD c)) := by
+  have hne : c.isEmpty = false := by cases c <;> simp_all
+  have hcodec : ∀ v, codec C v = if (!v.isEmpty && C.codecExists v) = true then some v else none := by
+    intro v
+    unfold codec
+    cases v.isEmpty <;> cases C.codecExists v <;> rfl
+  unfold findCodec
+  simp only [hcodec, List.find?_cons, List.find?_nil, hne, Bool.false_eq_true, if_false]
+  by_cases h1 : (!(aliasOf c).isEmpty && C.codecExists (aliasOf c)) = true
+  · simp only [h1, if_true, Option.getD_some]
+  · simp only [h1, Bool.false_eq_true, if_false]
+    by_cases h2 : (!(replaceDash [] c).isEmpty && C.codecExists (replaceDash [] c)) = true
+    · simp only [h2, if_true, Option.getD_some]
+    · simp only [h2, Bool.false_eq_true, if_false]
+      by_cases h3 : (!(replaceDash [95] c).isEmpty && C.codecExists (replaceDash [95] c)) = true
+      · simp only [h3, if_true, Option.getD_some]
+      · simp only [h3, Bool.false_eq_true, if_false, Option.getD_none, lower_idem]
+
+/-- Only the empty name has no codec name; every answer is lower-case (so `original_encoding` is). -/
+theorem findCodec_none_iff_empty (C : Codecs) (c : Name) :
+    (findCodec C c = none ↔ c = []) ∧ ∀ r, findCodec C c = some r → lower r = r := by
+  constructor
+  · constructor
+    · intro h
+      cases c with
+      | nil => rfl
+      | cons x t => rw [findCodec_spec C (x :: t) (by simp)] at h; cases h
+    · intro h
+      subst h
+      have : aliasOf [] = [] := by decide +kernel
+      simp [findCodec, codec, this]
+  · intro r h
+    cases c with
+    | nil =>
+      have : aliasOf [] = [] := by decide +kernel
+      simp [findCodec, codec, this] at h
+    | cons x t =>
+      rw [findCodec_spec C (x :: t) (by simp)] at h
+      cases h
+      exact lower_idem _
+
+example : findCodec toy (ofS "UTF-8") = some utf8 ∧ findCodec toy (ofS "u-t-f-8") = some (ofS "u-t-f-8") ∧
+    findCodec ⟨fun n => n == ofS "utf8", fun _ _ => none, fun _ _ => none, fun _ => none⟩ (ofS "UTF-8") = some (ofS "utf-8") ∧
+    findCodec ⟨fun n => n == ofS "utf8", fun _ _ => none, fun _ _ => none, fun _ => none⟩ (ofS "ut-f8") = some (ofS "utf8") := by decide +kernel
+
+/-! ## EncodingDetector on a str -/
+
+/-- `EncodingDetector(str, …).encodings` is the documented list with no BOM step and no chardet step,
+    the declaration being looked for by the str flavour of the patterns. -/
+theorem encodings_str_eq_candidates (a : Args) (s : PStr) :
+    Rx.detectorEncodingsStr a s =
+      candidates (a.known ++ a.override) none a.user (Rx.findDeclaredRx true s a.isHtml) none (exclSet a) := by
+  unfold Rx.detectorEncodingsStr detectorEncodings
+  exact encodings_eq_candidates _ _ _ _ _ _
+
+example : Rx.detectorEncodingsStr { isHtml := true } (ofS "<meta char" ++ [0x17F] ++ ofS "et=KOI8-R>") = [ofS "koi8-r", utf8, windows1252] := by
+  decide +kernel
+
+/-! ## UnicodeDammit always produces text (for lawful codecs), and where the result comes from -/
+
+/-- Over the WHOLE generated alias table: no key is (a spelling of) one of the two last-ditch names,
+    so those are never redirected. -/
+theorem alias_keys_are_not_the_fallbacks :
+    Gen.charsetAliases.all (fun kv => lower kv.1 != utf8 && lower kv.1 != windows1252) = true := by
+  decide +kernel
+
+/-- Any spelling (case) of utf-8 / windows-1252 resolves to the lower-case name, given that
+    `codecs.lookup` ignores case and knows the two. -/
+theorem fallback_resolves (C : Codecs) (L : Lawful C) (c : Name) (h : lower c = utf8 ∨ lower c = windows1252) :
+    findCodec C c = some (lower c) := by
+  have hal : aliasOf c = c := by
+    unfold aliasOf
+    cases hl : Gen.charsetAliases.lookup c with
+    | none => rfl
+    | some v =>
+      have hm := lookup_some_mem _ _ _ hl
+      have := List.all_eq_true.mp alias_keys_are_not_the_fallbacks _ hm
+      simp only [Bool.and_eq_true, bne_iff_ne, ne_eq] at this
+      rcases h with h | h
+      · exact absurd h this.1
+      · exact absurd h this.2
+  have hne : c.isEmpty = false := by
+    cases c with
+    | nil => rcases h with h | h <;> cases h
+    | cons x t => rfl
+  have hex : C.codecExists c = true := by
+    rw [L.lookup_ignores_case]
+    rcases h with h | h
+    · rw [h]; exact L.utf8_exists
+    · rw [h]; exact L.cp1252_exists
+  simp only [findCodec, codec, hal, hne, hex, Bool.false_eq_true, if_false, if_true]
+
+/-- TOTALITY. For lawful codecs, a non-empty byte string always gets a text unless BOTH last-ditch
+    encodings are excluded: whatever the arguments, the BOM, the declaration, the chardet guess. -/
+theorem dammit_total (C : Codecs) (L : Lawful C) (a : Args) (b : Bytes) (hb : b ≠ [])
+    (hx : (exclSet a).contains utf8 = false ∨ (exclSet a).contains windows1252 = false) :
+    (dammit C a (.bytes b)).text.isSome = true := by
+  cases ht : (dammit C a (.bytes b)).text with
+  | some t => rfl
+  | none =>
+    exfalso
+    have hall := (no_text_iff C a b hb).mp ht
+    have key : ∀ n : Name, (n = utf8 ∨ n = windows1252) → lower n = n → (exclSet a).contains n = false →
+        (∀ d, (C.decodeReplace n d).isSome = true) → False := by
+      intro n hn hln hxn htot
+      have hsrc : n ∈ sources (a.known ++ a.override) (stripBom b).2 a.user (findDeclared (stripBom b).1 a.isHtml)
+          (C.chardet (stripBom b).1) := by
+        unfold sources
+        rw [fallback_is_utf8_then_windows1252]
+        apply List.mem_append_right
+        rcases hn with rfl | rfl
+        · exact List.mem_cons_self
+        · exact List.mem_cons_of_mem _ List.mem_cons_self
+      obtain ⟨c, hc, hlc⟩ := (candidates_complete _ _ _ _ _ _).1 n hsrc (by rw [hln]; exact hxn)
+      rw [hln] at hlc
+      have hres : findCodec C c = some n := by
+        have := fallback_resolves C L c (by rcases hn with rfl | rfl; exact Or.inl hlc; exact Or.inr hlc)
+        rw [hlc] at this; exact this
+      have hasc : c ≠ ascii := by
+        intro h; subst h
+        rcases hn with rfl | rfl <;> revert hlc <;> decide
+      have h2 := (hall c hc).2 hasc
+      obtain ⟨u, hu⟩ := Option.isSome_iff_exists.mp (htot (stripBom b).1)
+      have : attempt C (stripBom b).1 true c = some (n, u) := (attempt_iff C _ true c n u).mpr ⟨hres, by simpa using hu⟩
+      rw [this] at h2; cases h2
+    rcases hx with hx | hx
+    · exact key utf8 (Or.inl rfl) (by decide) hx L.utf8_replace_total
+    · exact key windows1252 (Or.inr rfl) (by decide) hx L.cp1252_replace_total
+
+/-- … hence `prepare_markup` (and the BeautifulSoup constructor) never raises ParserRejectedMarkup for
+    lawful codecs unless both last-ditch encodings are excluded. -/
+theorem prepare_never_rejects (C : Codecs) (L : Lawful C) (m : Markup) (fromEnc docDecl : Option Name) (excl : List Name)
+    (hx : (excl.map lower).contains utf8 = false ∨ (excl.map lower).contains windows1252 = false) :
+    prepareMarkupFull C m fromEnc docDecl excl ≠ .rejected := by
+  cases m with
+  | str s => simp [prepareMarkupFull]
+  | bytes b =>
+    unfold prepareMarkupFull
+    dsimp only
+    by_cases hb : b = []
+    · subst hb
+      have : (dammit C { known := knownOfFromEncoding fromEnc, user := knownOfFromEncoding docDecl, exclude := excl, isHtml := true }
+          (.bytes [])).text = some [] := (empty_bytes C _).1
+      rw [this]; simp
+    · have := dammit_total C L { known := knownOfFromEncoding fromEnc, user := knownOfFromEncoding docDecl, exclude := excl, isHtml := true }
+        b hb hx
+      obtain ⟨t, ht⟩ := Option.isSome_iff_exists.mp this
+      rw [ht]; simp
+
+/-- a lawful toy: utf-8, windows-1252 and ascii in any case; strict decoding accepts 7-bit strings only -/
+def toyLawful : Codecs where
+  codecExists n := lower n == utf8 || lower n == windows1252 || lower n == ascii
+  decodeStrict n b := if (n == utf8 || n == windows1252 || n == ascii) && b.all (· < 128) then some b else none
+  decodeReplace n b := if n == utf8 || n == windows1252 || n == ascii then some (b.map fun c => if c < 128 then c else 0xFFFD) else none
+
+theorem toyLawful_is_lawful : Lawful toyLawful where
+  lookup_ignores_case n := by simp [toyLawful, lower_idem]
+  utf8_exists := by decide
+  cp1252_exists := by decide
+  utf8_replace_total d := by simp [toyLawful]
+  cp1252_replace_total d := by simp [toyLawful, windows1252, utf8]
+
+/-- "No contrary indication", at full strength: if EVERY indication that is present — known definite,
+    override and user encodings, the BOM, the declaration, the chardet guess — names UTF-8 (in any
+    spelling of case), utf-8 is not excluded and the codecs are lawful, then bytes that are valid UTF-8
+    are decoded as UTF-8, `original_encoding == "utf-8"`, no replacement flagged. (`utf8_default` is the
+    case where there is no indication at all, and needs no codec laws beyond utf-8 existing.) -/
+theorem utf8_when_every_indication_is_utf8 (C : Codecs) (L : Lawful C) (a : Args) (b : Bytes) (u : PStr) (hb : b ≠ [])
+    (hall : ∀ x ∈ (a.known ++ a.override) ++ (stripBom b).2.toList ++ a.user ++
+        (findDeclared (stripBom b).1 a.isHtml).toList ++ (C.chardet (stripBom b).1).toList, lower x = utf8)
+    (hx : (exclSet a).contains utf8 = false)
+    (hdec : C.decodeStrict utf8 (stripBom b).1 = some u) :
+    (dammit C a (.bytes b)).text = some u ∧ (dammit C a (.bytes b)).originalEncoding = some utf8 ∧
+    (dammit C a (.bytes b)).containsReplacement = false := by
+  -- the first candidate is a spelling of utf-8
+  have hfirst : ∃ c rest, candidatesOf C a b = [] ++ c :: rest ∧ lower c = utf8 := by
+    unfold candidatesOf candidates sources
+    rw [fallback_is_utf8_then_windows1252]
+    generalize (a.known ++ a.override) ++ (stripBom b).2.toList ++ a.user ++
+        (findDeclared (stripBom b).1 a.isHtml).toList ++ (C.chardet (stripBom b).1).toList = ind at hall
+    cases ind with
+    | nil =>
+      have hl : lower utf8 = utf8 := by decide
+      simp only [List.nil_append, List.filter_cons, hl, hx, Bool.not_false, if_true, dedupLower_cons]
+      exact ⟨utf8, _, rfl, hl⟩
+    | cons x t =>
+      have hlx := hall x List.mem_cons_self
+      simp only [List.cons_append, List.nil_append, List.filter_cons, hlx, hx, Bool.not_false, if_true, dedupLower_cons]
+      exact ⟨x, _, rfl, hlx⟩
+  obtain ⟨c, rest, hc, hlc⟩ := hfirst
+  have hres : findCodec C c = some utf8 := by
+    have := fallback_resolves C L c (Or.inl hlc)
+    rw [hlc] at this; exact this
+  exact dammit_first_clean C a b hb [] rest c utf8 u hc (fun x hx => by cases hx) hres hdec
+
+-- a UTF-8 BOM, `known_definite_encodings=["UTF-8"]` and a `<meta charset=utf-8>` are no contrary indication
+example : True := by
+  have := utf8_when_every_indication_is_utf8 toyLawful toyLawful_is_lawful { known := [ofS "UTF-8"], isHtml := true }
+    ([0xef, 0xbb, 0xbf] ++ ofS "<meta charset=utf-8>") (ofS "<meta charset=utf-8>") (by decide) (by decide +kernel) (by decide) (by decide +kernel)
+  trivial
+
+/-- "VALID UTF-8" MADE CONCRETE. `BS.Detwingle.decodeUtf8` is the strict UTF-8 decoder of Unicode Table 3-7
+    (model of property C19, proved there to accept exactly the encodings of lists of scalar values, and
+    compared there with CPython's). If the codec oracle's strict utf-8 decoding is that decoder, then for
+    EVERY text `s` of Unicode scalar values: when what remains after BOM stripping is the UTF-8 encoding
+    of `s` and every present indication says UTF-8, UnicodeDammit returns `s` itself, as utf-8, unflagged. -/
+theorem valid_utf8_text_is_recovered (C : Codecs) (L : Lawful C) (a : Args) (b : Bytes) (s : PStr) (hb : b ≠ [])
+    (hdecoder : ∀ d, C.decodeStrict utf8 d = Detwingle.decodeUtf8 d)
+    (hs : ∀ c ∈ s, Detwingle.IsScalar c) (henc : (stripBom b).1 = Detwingle.utf8 s)
+    (hall : ∀ x ∈ (a.known ++ a.override) ++ (stripBom b).2.toList ++ a.user ++
+        (findDeclared (stripBom b).1 a.isHtml).toList ++ (C.chardet (stripBom b).1).toList, lower x = utf8)
+    (hx : (exclSet a).contains utf8 = false) :
+    (dammit C a (.bytes b)).text = some s ∧ (dammit C a (.bytes b)).originalEncoding = some utf8 ∧
+    (dammit C a (.bytes b)).containsReplacement = false :=
+  utf8_when_every_indication_is_utf8 C L a b s hb hall hx (by rw [hdecoder, henc]; exact Detwingle.decodeUtf8_utf8 s hs)
+
+/-- a lawful oracle whose strict utf-8 decoding is the Table 3-7 decoder -/
+def toyUtf8 : Codecs where
+  codecExists n := lower n == utf8 || lower n == windows1252
+  decodeStrict n b := if n == utf8 then Detwingle.decodeUtf8 b else none
+  decodeReplace n b := if n == utf8 || n == windows1252 then some (b.map fun c => if c < 128 then c else 0xFFFD) else none
+
+theorem toyUtf8_is_lawful : Lawful toyUtf8 where
+  lookup_ignores_case n := by simp [toyUtf8, lower_idem]
+  utf8_exists := by decide
+  cp1252_exists := by decide
+  utf8_replace_total d := by simp [toyUtf8]
+  cp1252_replace_total d := by simp [toyUtf8, windows1252, utf8]
+
+-- "é€😀" behind a UTF-8 BOM, known_definite_encodings=["UTF-8"]
+example : True := by
+  have := valid_utf8_text_is_recovered toyUtf8 toyUtf8_is_lawful { known := [ofS "UTF-8"] }
+    ([0xef, 0xbb, 0xbf] ++ Detwingle.utf8 [0xE9, 0x20AC, 0x1F600]) [0xE9, 0x20AC, 0x1F600] (by decide +kernel) (fun _ => rfl)
+    (by decide) (by decide +kernel) (by decide +kernel) (by decide)
+  trivial
+
+/-- WHICH ENCODING WINS in the replace pass: when no candidate decodes cleanly, the first candidate other
+    than "ascii" that decodes with replacement gives the text and `original_encoding`, flag set. -/
+theorem dammit_replace_winner (C : Codecs) (a : Args) (b : Bytes) (hb : b ≠ [])
+    (pre post : List Name) (c r : Name) (u : PStr)
+    (hstrict : ∀ x ∈ candidatesOf C a b, attempt C (stripBom b).1 false x = none)
+    (hc : (candidatesOf C a b).filter (· != ascii) = pre ++ c :: post)
+    (hpre : ∀ x ∈ pre, attempt C (stripBom b).1 true x = none)
+    (hcu : attempt C (stripBom b).1 true c = some (r, u)) :
+    (dammit C a (.bytes b)).text = some u ∧ (dammit C a (.bytes b)).originalEncoding = some r ∧
+    (dammit C a (.bytes b)).containsReplacement = true := by
+  have h := dammit_eq_spec C a b hb
+  have h1 : (candidatesOf C a b).findSome? (attempt C (stripBom b).1 false) = none :=
+    List.findSome?_eq_none_iff.mpr hstrict
+  have h2 : ((candidatesOf C a b).filter (· != ascii)).findSome? (attempt C (stripBom b).1 true) = some (r, u) := by
+    rw [hc, List.findSome?_append, List.findSome?_eq_none_iff.mpr hpre]
+    simp [hcu]
+  simp only [dammitSpec, h1, h2, Prod.mk.injEq] at h
+  exact h
+
+/-- The result never comes from outside the candidate list: whenever there is a text, it is the strict
+    or (flag set) the replace decoding of the BOM-stripped bytes under some candidate, and
+    `original_encoding` is the codec name that candidate resolves to. -/
+theorem result_comes_from_a_candidate (C : Codecs) (a : Args) (b : Bytes) (hb : b ≠ []) (u : PStr)
+    (ht : (dammit C a (.bytes b)).text = some u) :
+    ∃ c ∈ candidatesOf C a b, ∃ r, findCodec C c = some r ∧ (dammit C a (.bytes b)).originalEncoding = some r ∧
+      (if (dammit C a (.bytes b)).containsReplacement then C.decodeReplace r (stripBom b).1 else C.decodeStrict r (stripBom b).1) = some u := by
+  have h := dammit_eq_spec C a b hb
+  unfold dammitSpec at h
+  cases hf : (candidatesOf C a b).findSome? (attempt C (stripBom b).1 false) with
+  | some ru =>
+    obtain ⟨r, u'⟩ := ru
+    simp only [hf, Prod.mk.injEq] at h
+    obtain ⟨c, hc, hcu⟩ := List.exists_of_findSome?_eq_some hf
+    have := (attempt_iff C _ false c r u').mp hcu
+    rw [ht] at h
+    have hu : u = u' := Option.some.inj h.1
+    subst hu
+    exact ⟨c, hc, r, this.1, h.2.1, by rw [h.2.2]; simpa using this.2⟩
+  | none =>
+    simp only [hf] at h
+    cases hg : ((candidatesOf C a b).filter (· != ascii)).findSome? (attempt C (stripBom b).1 true) with
+    | some ru =>
+      obtain ⟨r, u'⟩ := ru
+      simp only [hg, Prod.mk.injEq] at h
+      obtain ⟨c, hc, hcu⟩ := List.exists_of_findSome?_eq_some hg
+      have := (attempt_iff C _ true c r u').mp hcu
+      rw [ht] at h
+      have hu : u = u' := Option.some.inj h.1
+      subst hu
+      exact ⟨c, (List.mem_filter.mp hc).1, r, this.1, h.2.1, by rw [h.2.2]; simpa using this.2⟩
+    | none =>
+      simp only [hg, Prod.mk.injEq] at h
+      rw [ht] at h; cases h.1
+
+/-! ## non-vacuity: a toy codec oracle and instances of the hypotheses above -/
+
+
 
 -- clean: first candidate wins, no flag
 example : ((dammit toy {} (.bytes [65])).text, (dammit toy {} (.bytes [65])).originalEncoding,
@@ -504,20 +951,48 @@ example : ((dammit toy {} (.bytes [0xef, 0xbb, 0xbf])).text, (dammit toy {} (.by
     = (some [], false) := by decide
 -- the hypotheses of `dammit_first_clean` / `utf8_default` / `from_encoding_first` are satisfiable
 example : True := by
-  have := utf8_default toy {} [65] [65] (by decide) rfl rfl rfl (by decide) (by decide) (by decide) (by decide) (by decide)
+  have := utf8_default toy {} [65] [65] (by decide) rfl rfl rfl (by decide) (by decide) rfl (by decide) (by decide) (by decide)
   have := from_encoding_first toy [65] (ofS "ASCII") ascii [65] [] (by decide) (by decide) (by decide) (by decide) (by decide)
   trivial
--- … and those of the two declaration theorems
+-- … and those of the two declaration theorems (realistic declarations with further attributes / pseudo-attributes)
 example : True := by
-  have := declared_of_wellformed_meta_partial (ofS "<html><head>") [] [34] (ofS "utf-8") [34] (ofS "</head>") 32
-    (by decide) (by decide) (by decide) (by decide) (Or.inr ⟨34, rfl, by decide⟩) (by decide) (by decide) (by decide)
-    (Or.inr ⟨34, [], rfl, by decide⟩) (by decide)
-  have := declared_of_wellformed_meta_partial (ofS "<!DOCTYPE html>\n<head><title>t</title>") (ofS "http-equiv=\"Content-Type\" content=\"text/html; ")
+  -- <html><head><meta charset="utf-8" id="m"></head>
+  have := declared_of_wellformed_meta (ofS "<html><head>") [] [34] (ofS "utf-8") (ofS "\" id=\"m\"") (ofS "</head>") 32
+    (by decide) (by decide) (by decide) (by decide) (Or.inr ⟨34, rfl, by decide⟩) (by decide) (by decide) (by decide) (by decide)
+    (Or.inr ⟨34, _, rfl, by decide⟩) (by decide)
+  -- <!DOCTYPE html>\n<head><title>t</title><meta http-equiv="Content-Type" content="text/html; charset=KOI8-R"></head>
+  have := declared_of_wellformed_meta (ofS "<!DOCTYPE html>\n<head><title>t</title>") (ofS "http-equiv=\"Content-Type\" content=\"text/html; ")
     [] (ofS "KOI8-R") [34] (ofS "</head>") 32
-    (by decide) (by decide) (by decide) (by decide) (Or.inl rfl) (by decide) (by decide) (by decide)
+    (by decide) (by decide) (by decide) (by decide) (Or.inl rfl) (by decide) (by decide) (by decide) (by decide)
     (Or.inr ⟨34, [], rfl, by decide⟩) (by decide)
-  have := declared_of_wellformed_xml_partial [10, 32] (ofS "xml version=\"1.0\" ") (ofS "Big5") (ofS " ") (ofS "\n<a/>") 34 34 false
-    (by decide) (by decide) (by decide) (by decide) (by decide) (by decide) (by decide) (Or.inr ⟨_, rfl⟩) (by decide)
+  -- \n <?xml version="1.0" encoding="Big5" standalone="yes"?><a lang="en">\n<b/>
+  have := declared_of_wellformed_xml [10, 32] (ofS "xml version=\"1.0\" ") (ofS "Big5") (ofS " standalone=\"yes\"?><a lang=\"en\">") (ofS "\n<b/>") 34 34 false
+    (by decide) (by decide) (by decide) (by decide) (by decide) (by decide) (by decide) (by decide) (by decide) (Or.inr ⟨_, rfl⟩) (by decide)
   trivial
+
+-- the hypotheses of `dammit_total` / `prepare_never_rejects` / `dammit_replace_winner` are satisfiable, and the
+-- conclusion is not trivial: the text exists although nothing decodes strictly and utf-8 is excluded
+example : (dammit toyLawful { exclude := [ofS "UTF-8"] } (.bytes [200])).text = some [0xFFFD] ∧
+    (dammit toyLawful { exclude := [ofS "UTF-8"] } (.bytes [200])).originalEncoding = some windows1252 := by decide
+example : True := by
+  have := dammit_total toyLawful toyLawful_is_lawful { exclude := [ofS "UTF-8"] } [200] (by decide) (Or.inr (by decide))
+  have := prepare_never_rejects toyLawful toyLawful_is_lawful (.bytes [200]) (some ascii) none [ofS "UTF-8"] (Or.inr (by decide))
+  have := dammit_replace_winner toyLawful { known := [ascii] } [200] (by decide) [] [windows1252] utf8 utf8 [0xFFFD]
+    (by rw [candidatesOf, ← encodings_eq_candidates]; decide) (by rw [candidatesOf, ← encodings_eq_candidates]; decide) (by decide) (by decide)
+  have := result_comes_from_a_candidate toyLawful {} [65] (by decide) [65] (by decide)
+  trivial
+
+-- remaining hypotheses, instantiated on non-trivial data
+example : True := by
+  have := bom_first_candidate utf16le [ofS "koi8-r"] (some (ofS "big5")) none [ofS "utf-8"] (by decide)
+  have := fallback_resolves toyLawful toyLawful_is_lawful (ofS "Windows-1252") (Or.inr (by decide))
+  have := findCodec_spec toy (ofS "x-sjis") (by decide)
+  have := (candidates_complete [ofS "A", ofS "b"] none [ofS "a"] none none [ofS "b"]).2 [ofS "A", ofS "b"] (ofS "a")
+    [utf8, ofS "windows-1252"] (by decide)
+  have := declared_html_encoding_of_meta toy { isHtml := true, known := [utf8] } (ofS "<meta charset=koi8-r>x") (ofS "koi8-r") rfl
+    (by decide) (by decide)
+  trivial
+-- `candidates_complete` (second part) really needs "no earlier occurrence ignoring case": here `a` is represented by `A`
+example : ofS "a" ∉ encodingsImpl [ofS "A", ofS "b"] none [ofS "a"] none none [ofS "b"] := by decide
 
 end BS.Props.C07
